@@ -4,7 +4,7 @@
    equalities tie that model to the source text. *)
 From Coq Require Import List Arith Bool Lia.
 Import ListNotations.
-From ZI Require Import Lib.Py Model.Ro Gen.RoKernel Proofs.Ro.
+From ZI Require Import Lib.Py Model.Ro Spec.C3 Gen.RoKernel Proofs.Ro.
 
 (* ------------------------------------------------------------------ vocabulary *)
 Lemma py_in_mem x l : py_in x l = mem x l.
@@ -98,6 +98,66 @@ Qed.
 
 Lemma gen_legacy_ro_eq fuel g x : gen_legacy_ro (legacy_flatten fuel g x) = legacy_ro fuel g x.
 Proof. unfold gen_legacy_ro, legacy_ro. apply gen_legacy_mergeOrderings_eq. Qed.
+
+(* ------------------------------------------------------------------ _legacy_flatten *)
+Section Flatten.
+Variable g : graph.
+Variable rk : nat -> nat.
+Hypothesis W : wf rk (bases g).
+
+Lemma legacy_flatten_S f x :
+  legacy_flatten (S f) g x = x :: flat_map (legacy_flatten f g) (bases g x).
+Proof. reflexivity. Qed.
+
+(* any depth bound above the rank gives the same flattening *)
+Lemma legacy_flatten_fuel f1 : forall f2 x, rk x < f1 -> rk x < f2 ->
+  legacy_flatten f1 g x = legacy_flatten f2 g x.
+Proof.
+  induction f1 as [|f1 IH]; intros f2 x H1 H2; [lia|]. destruct f2 as [|f2]; [lia|].
+  rewrite !legacy_flatten_S. f_equal. rewrite !flat_map_concat_map. f_equal.
+  apply map_ext_in. intros b Hb. destruct (W x) as [_ R]. specialize (R _ Hb). apply IH; lia.
+Qed.
+
+Definition flat (y : nat) : list nat := legacy_flatten (S (rk y)) g y.
+
+Lemma flat_unfold y : flat y = y :: flat_map flat (bases g y).
+Proof.
+  unfold flat at 1. rewrite legacy_flatten_S. f_equal. rewrite !flat_map_concat_map. f_equal.
+  apply map_ext_in. intros b Hb. destruct (W y) as [_ R]. specialize (R _ Hb).
+  unfold flat. apply legacy_flatten_fuel; lia.
+Qed.
+
+(* the work-list loop appends the depth-first flattening of everything still on the list *)
+Lemma gen_legacy_flatten_loop_eq n : forall rest done, length (flat_map flat rest) < n ->
+  gen_legacy_flatten_loop n (bases g) done rest = Some (done ++ flat_map flat rest).
+Proof.
+  induction n as [|n IH]; intros rest done H; [lia|]. cbn [gen_legacy_flatten_loop].
+  destruct rest as [|ob r].
+  - cbn. rewrite app_nil_r. reflexivity.
+  - cbn [flat_map] in H. rewrite flat_unfold in H. cbn [app length] in H.
+    rewrite IH.
+    + rewrite flat_map_app. cbn [flat_map]. rewrite (flat_unfold ob). cbn [app].
+      rewrite <- !app_assoc. reflexivity.
+    + rewrite flat_map_app. rewrite app_length in *. lia.
+Qed.
+
+Lemma gen_legacy_flatten_eq fuel x n : rk x < fuel -> length (legacy_flatten fuel g x) < n ->
+  gen_legacy_flatten n (bases g) x = Some (legacy_flatten fuel g x).
+Proof.
+  intros H L. assert (E : legacy_flatten fuel g x = flat x) by (apply legacy_flatten_fuel; lia).
+  assert (F1 : flat_map flat [x] = flat x) by (cbn [flat_map]; apply app_nil_r).
+  unfold gen_legacy_flatten. rewrite gen_legacy_flatten_loop_eq.
+  - rewrite F1, E. reflexivity.
+  - rewrite F1, <- E. exact L.
+Qed.
+
+Lemma gen_legacy_ro_of_eq fuel x n : rk x < fuel -> length (legacy_flatten fuel g x) < n ->
+  gen_legacy_ro_of n (bases g) x = Some (legacy_ro fuel g x).
+Proof.
+  intros H L. unfold gen_legacy_ro_of. rewrite (gen_legacy_flatten_eq fuel x n H L).
+  rewrite gen_legacy_ro_eq. reflexivity.
+Qed.
+End Flatten.
 
 (* ------------------------------------------------------------------ _merge *)
 Definition out_of_mres (strict : bool) (legacy : list nat) (m : mres) : mro_out :=
